@@ -61,12 +61,21 @@ Proof. subst S'; unfold with_to_c, mmul, mget; proj; reflexivity. Qed.
 Lemma stability_error_same n a b : stability_error S' n a b = stability_error S n a b.
 Proof. subst S'; unfold with_to_c, stability_error, l21_norm, msub, mmul, midentity, mget; proj; reflexivity. Qed.
 
+Lemma decomp_fields_same n m : decomp_fields S' n m = decomp_fields S n m.
+Proof.
+  unfold decomp_fields.
+  rewrite cholesky_same. generalize (cholesky S n m). intros q.
+  rewrite det_q_same, inv_diag_same. generalize (det_q_of S n q) (inv_diag_of S n q). intros dq idg.
+  cbv zeta. rewrite n_matrix_same, n_sum_same, inverse_q_same, !mtranspose_same, mmul_same.
+  subst S'. unfold with_to_c. proj. reflexivity.
+Qed.
+
 Lemma decompose_same n m st : decompose_for_tropical S' n m st = decompose_for_tropical S n m st.
 Proof.
   unfold decompose_for_tropical.
-  rewrite cholesky_same. generalize (cholesky S n m). intros q.
-  rewrite det_q_same, inv_diag_same. generalize (det_q_of S n q) (inv_diag_of S n q). intros dq idg.
-  cbv zeta. rewrite n_matrix_same, n_sum_same, inverse_q_same, !mtranspose_same, mmul_same, stability_error_same.
+  rewrite cholesky_same, det_q_same, decomp_fields_same.
+  generalize (det_q_of S n (cholesky S n m)) (decomp_fields S n m). intros dq r.
+  cbv zeta. rewrite stability_error_same.
   subst S'. unfold with_to_c. proj. reflexivity.
 Qed.
 
